@@ -1,6 +1,8 @@
 #!/bin/bash
 # seedtest.sh <ID> <seed-dir> [tier]: apply a seeded change to /repo, run the check, undo it.
 # Prints DETECTED / MISSED. Never leaves /repo modified.
+# no other check may build from /repo while it is modified
+. /verif/lib/env.sh; exec 9>"$WORK/build.lock"; flock 9; export VERIF_BUILD_LOCKED=1
 ID="$1"; DIR="$2"; TIER="${3:-quick}"
 cd /repo || exit 2
 if [ -n "$(git status --porcelain)" ]; then echo "repo not clean"; exit 2; fi
